@@ -1,6 +1,7 @@
 (* C33 — the exact statements used in props/C33.v, assembled from the lemmas. *)
 From verif Require Import lib.Base model.C34_width model.C33
-  proofs.C33_proofs proofs.C33_proofs2 proofs.C33_proofs3.
+  proofs.C33_proofs proofs.C33_proofs2 proofs.C33_proofs3
+  proofs.C34_proofs proofs.C34_utf8b proofs.C34_inst.
 Open Scope Z_scope.
 
 Lemma write_text_invariant : forall tb t,
@@ -34,3 +35,14 @@ Qed.
 Lemma restyle_content : forall t ts,
   content (style_text t ts) = content t /\ length (style_text t ts) = length t.
 Proof. intros t ts. split; [apply style_text_content | apply style_text_length]. Qed.
+
+(* the same for the executed instance: wcwidth.Of / wcwidth.Trim over the width table *)
+Lemma trim_prefix_width_wcwidth : forall t n,
+  (exists rest, content t = content (trim_text t n) ++ rest)
+  /\ (0 <= n -> text_width (trim_text t n) <= n).
+Proof.
+  intros t n. unfold trim_text, text_width. apply trim_prefix_width.
+  - intros x. apply of_bytes_nonneg. exact of_rune_nonneg.
+  - intros x m. apply trim_bytes_prefix.
+  - intros x m Hm. apply trim_fits_wcwidth. exact Hm.
+Qed.
